@@ -341,6 +341,23 @@ def body_detect(ctx, case):
                 ctx.check(err <= 1.0 + 1e-3, "rotated_coordinates_off_by_more_than_one_pixel",
                           lambda: "%s %r: nearest upright result mapped back differs by %.2f px; page %dx%d ds %d rot %d; " % (name, g.tolist()[:3], err, Wo, Ho, ds, rot) + desc())
         ctx.event("rotation_metamorphic_checked")
+    # the engine object and the page buffer are re-used for the next page (a loader that reads every page into the same
+    # array): the second page - here the first one upside down - must be decoded from its own content
+    flipped = np.ascontiguousarray(orig[::-1])
+    orig[...] = flipped
+    np.random.seed(rng_seed)
+    _random.seed(rng_seed)
+    with contextlib.redirect_stdout(io.StringIO()):
+        second = ctx.must("detect_raises", eng.detect, orig, rot)
+    fresh = make_engine()
+    fresh.parsenet = StubParseNet(ds)
+    np.random.seed(rng_seed)
+    _random.seed(rng_seed)
+    with contextlib.redirect_stdout(io.StringIO()):
+        want2 = ctx.must("detect_raises", fresh.detect, flipped.copy(), rot)
+    key = lambda lst: sorted(np.asarray(a, dtype=np.float64).round(3).tolist() for a in lst)
+    ctx.check(key(second[1]) == key(want2[1]) and key(second[3]) == key(want2[3]), "page_in_a_reused_buffer_decoded_as_the_previous_page",
+              lambda: "baselines %r, a fresh engine gives %r; " % (key(second[1])[:3], key(want2[1])[:3]) + desc())
     if case.get("fences") and any(case["fences"]):
         ctx.event("with_region_separator_responses")
         if len(p_list) >= 2:
